@@ -71,4 +71,35 @@ byte (37..38), the outer ARRAY at the `>` token (38..39) -/
 example : (nodesT exTree).map (fun n => (n.pos, n.end)) =
     [(0, 39), (6, 38), (13, 20), (13, 14), (15, 20), (22, 37), (22, 23), (24, 37), (30, 36)] := by decide
 
+/-! ## the repaired inputs: a named type whose first path component spells a scalar type (`STRUCT<a date.t, b INT64.u>`,
+`` `date`.x ``) — all node positions are token boundaries; a back-quoted FIRST COMPONENT is an `Ident` node (its
+`NameEnd` is the token's end), not a `SimpleType`, so `hq` holds vacuously -/
+
+def ex3Buf : Bytes := B "STRUCT<a date.t, b INT64.u>"
+def ex3Toks : List Token := match Lex.lexAll ex3Buf with | .ok ts => ts | _ => []
+def ex3Tree : Ty :=
+  .struct 0 26 (.cons (some ⟨7, 8, B "a"⟩) (.named [⟨9, 13, B "date"⟩, ⟨14, 15, B "t"⟩])
+    (.cons (some ⟨17, 18, B "b"⟩) (.named [⟨19, 24, B "INT64"⟩, ⟨25, 26, B "u"⟩]) .nil))
+theorem ex3_lex : Lex.lexAll ex3Buf = .ok ex3Toks := by rfl
+theorem ex3_parse : parseTypeTop (topFuel ex3Toks) ex3Toks = .ok ex3Tree := by rfl
+
+theorem ex3_positions : ∀ n ∈ nodesT ex3Tree,
+    (∃ tok ∈ expand ex3Toks, tok.pos = n.pos) ∧ (∃ tok ∈ expand ex3Toks, tok.end = n.end) ∧
+    0 ≤ n.pos ∧ n.pos < n.end ∧ n.end ≤ ex3Buf.length ∧ InOrder n.pos n.end (children n) :=
+  type_positions ex3_lex ex3_parse (fun a n hn => by simp [ex3Tree, nodesT, nodesFs, optIdent] at hn)
+
+example : (nodesT ex3Tree).map (fun n => (n.pos, n.end)) =
+    [(0, 27), (7, 15), (7, 8), (9, 15), (9, 13), (14, 15), (17, 26), (17, 18), (19, 26), (19, 24), (25, 26)] := by decide
+
+def bqnBuf : Bytes := B "`date`.x"
+def bqnToks : List Token := match Lex.lexAll bqnBuf with | .ok ts => ts | _ => []
+def bqnTree : Ty := .named [⟨0, 6, B "date"⟩, ⟨7, 8, B "x"⟩]
+theorem bqn_lex : Lex.lexAll bqnBuf = .ok bqnToks := by rfl
+theorem bqn_parse : parseTypeTop (topFuel bqnToks) bqnToks = .ok bqnTree := by rfl
+
+theorem bqn_positions : ∀ n ∈ nodesT bqnTree,
+    (∃ tok ∈ expand bqnToks, tok.pos = n.pos) ∧ (∃ tok ∈ expand bqnToks, tok.end = n.end) ∧
+    0 ≤ n.pos ∧ n.pos < n.end ∧ n.end ≤ bqnBuf.length ∧ InOrder n.pos n.end (children n) :=
+  type_positions bqn_lex bqn_parse (fun a n hn => by simp [bqnTree, nodesT] at hn)
+
 end MF.Props.C05
